@@ -195,7 +195,7 @@ fn trace_findings(obs: &Obs, run: Option<&mut Run>, key: u64) -> Vec<Finding> {
         i = j;
     }
     if let Some(run) = run {
-        for k in 0..nontrivial {
+        for k in 0..nontrivial.min(1000) {
             run.nontrivial(key ^ (k as u64 + 1).wrapping_mul(0xD1B54A32D192ED03));
         }
     }
@@ -453,9 +453,78 @@ fn check_input(prop: &str, s: &dyn Subject, sd: &SubjectDef, p: &Prepared, input
     f
 }
 
+/// Long adversarial inputs for the stress family: (name, bytes). `big` scales the single-token shapes.
+pub fn stress_inputs(sd: &SubjectDef, idx_in_family: usize, big: usize, quadratic: usize) -> Vec<(String, Vec<u8>)> {
+    let rep = |s: &str, n: usize| s.repeat(n).into_bytes();
+    let mut v: Vec<(String, Vec<u8>)> = Vec::new();
+    match (sd.family.as_str(), idx_in_family) {
+        ("stress", 0) => {
+            v.push(("consecutive pattern skips".into(), rep(" ", big)));
+            v.push(("one giant self-loop token".into(), rep("a", big)));
+            let mut t = b"x".to_vec();
+            t.extend(rep("yx", big / 2));
+            t.push(b'z');
+            v.push(("one giant 2-cycle token".into(), t));
+            v.push(("many short tokens".into(), rep("b;", big / 2)));
+            v.push(("skips and tokens".into(), rep("a \n b ", big / 6)));
+            let mut u = b"x".to_vec();
+            u.extend(rep("yx", quadratic / 2));
+            v.push(("almost matching 2-cycle (errors)".into(), u));
+        }
+        ("stress", 1) => {
+            v.push(("(a*)*b without the b".into(), rep("a", quadratic)));
+            let mut t = rep("a", big);
+            t.push(b'b');
+            v.push(("(a*)*b matching".into(), t));
+            v.push(("(c|cc)+d without the d".into(), rep("c", quadratic)));
+            let mut t = rep("c", big);
+            t.push(b'd');
+            v.push(("(c|cc)+d matching".into(), t));
+            let mut t = b"e".to_vec();
+            t.extend(rep("fgh", big / 3));
+            t.push(b'i');
+            v.push(("(e|ef)(g|fgh)*i matching".into(), t));
+            let mut t = b"ef".to_vec();
+            t.extend(rep("g", quadratic));
+            v.push(("(e|ef)(g|fgh)*i without the i".into(), t));
+            let mut t = b"k".to_vec();
+            t.extend(rep("xl", big / 2));
+            v.push(("k(.*l)? long".into(), t));
+            let mut t = b"k".to_vec();
+            t.extend(rep("x", big));
+            v.push(("k(.*l)? without l (late accept far back)".into(), t));
+            v.push(("(m+n?)+o without the o".into(), rep("mmn", quadratic / 3)));
+            v.push(("[p-r]{1,3}(?:pq|qr){2,}s almost".into(), rep("pqrpqqr", quadratic / 7)));
+        }
+        ("stress", 2) => {
+            v.push(("long identifier".into(), rep("abcdefghijklmnopqrstuvwxyz0123456789", big / 36)));
+            v.push(("keyword prefixes".into(), rep("abcdefghijklmnop abcdefghijklmno abcdefghijklmnopqrstuvwxyz012345678 ", big / 70)));
+            let mut t = b"\"".to_vec();
+            t.extend(rep("\\\"x", big / 3));
+            v.push(("unterminated string with escapes".into(), {
+                let mut u = b"\"".to_vec();
+                u.extend(rep("\\\"x", quadratic / 3));
+                u
+            }));
+            t.push(b'"');
+            v.push(("long string with escapes".into(), t));
+            v.push(("numbers".into(), rep("12345.", big / 6)));
+        }
+        ("stress-cb", _) => {
+            v.push(("consecutive callback Skips".into(), rep(" ", big)));
+            v.push(("consecutive Filter::Skip".into(), rep("\n", big)));
+            v.push(("consecutive skip-pattern callbacks".into(), rep("-", big)));
+            v.push(("mixed skips and tokens".into(), rep(" -\nwwb", big / 7)));
+        }
+        _ => {}
+    }
+    v
+}
+
 fn families_for(prop: &str) -> &'static [&'static str] {
     match prop {
         "C13" => &["callbacks"],
+        "C20" => &["core", "stress", "stress-cb"],
         _ => &["core"],
     }
 }
@@ -493,6 +562,12 @@ pub fn main(subjects: &[&'static dyn Subject], defs_json: &str, cfg: BuildCfg) -
     if prop == "REPLAY" {
         return replay(subjects, &set, &args, &cfg);
     }
+    if prop == "STACKCHILD" {
+        return stack_child(subjects, &set, &args);
+    }
+    if prop == "STACK" {
+        return stack_parent(&set, &args, &cfg);
+    }
     let mut run = Run::new(&prop, &args.tier, args.seed, &rule_for(&prop));
     run.assumptions = vec![
         format!("build configuration {}", cfg.name()),
@@ -520,6 +595,46 @@ pub fn main(subjects: &[&'static dyn Subject], defs_json: &str, cfg: BuildCfg) -
         };
         run.count("subjects", 1);
         let def_key = fnv(p.rust.as_bytes());
+        if sd.family.starts_with("stress") {
+            let fam_idx = set.defs.iter().take(idx).filter(|d| d.family == sd.family).count();
+            let (big, quad) = if args.thorough() { (262_144, 8192) } else { (65_536, 2048) };
+            let mut failed = None;
+            for (name, input) in stress_inputs(sd, fam_idx, big, quad) {
+                // the tail-call generator recurses per skipped region: give the lexer a large stack so that
+                // the read pattern (C20), not stack use (C06), is what this run observes
+                let obs = std::thread::scope(|sc| {
+                    std::thread::Builder::new()
+                        .stack_size(2usize << 30)
+                        .spawn_scoped(sc, || lex_catch(s, 0, &input, Mode { trace: true, count_only: true, ..Mode::default() }))
+                        .expect("spawn")
+                        .join()
+                        .expect("join")
+                });
+                run.eval(1);
+                run.count("stress_inputs", 1);
+                run.count("stress_trace_events", obs.trace.len() as u64);
+                let key = def_key ^ fnv(name.as_bytes());
+                let mut f = trace_findings(&obs, Some(&mut run), key);
+                if let Some(a) = obs.anomalies.first() {
+                    f.push(fnd("C20", 0, format!("stress input '{name}': {a}")));
+                }
+                if !obs.ended {
+                    f.push(fnd("C20", 0, format!("stress input '{name}': iteration did not end")));
+                }
+                run.sample(|| json!({"definition": p.rust, "stress_input": name, "bytes": input.len(), "ok_items": obs.n_ok, "err_items": obs.n_err, "trace_events": obs.trace.len()}));
+                if !f.is_empty() {
+                    failed = Some((input, f));
+                    break;
+                }
+            }
+            if let Some((input, f)) = failed {
+                run.violations = 1;
+                report_violation(&prop, &args.replay_dir, &subject_replay(&prop, &cfg, idx, sd, &p.rust, &input, &f));
+                code = 1;
+                break;
+            }
+            continue;
+        }
         let check = |input: &[u8], run: Option<&mut Run>| check_input(&prop, s, sd, &p, input, run, def_key);
         if let Some((input, f)) = run_inputs(&p, &sd.def, caps, cases, args.seed ^ (idx as u64) << 20 ^ fnv(prop.as_bytes()), &mut run, &check) {
             run.frozen = false;
@@ -592,4 +707,99 @@ fn replay(subjects: &[&'static dyn Subject], set: &SubjectSet, args: &Args, cfg:
 #[allow(dead_code)]
 fn _unused(_: &dyn Fn(&[u8]) -> bool) {
     let _ = shrink_input;
+}
+
+/// C06 stack clause, child: lex one stress input on a thread with a fixed stack; prints counts.
+fn stack_child(subjects: &[&'static dyn Subject], set: &SubjectSet, args: &Args) -> i32 {
+    let idx = args.extra_u64("def", 0) as usize;
+    let shape = args.extra_u64("shape", 0) as usize;
+    let size = args.extra_u64("size", 1000) as usize;
+    let stack = args.extra_u64("stack", 256 * 1024) as usize;
+    let sd = &set.defs[idx];
+    let fam_idx = set.defs.iter().take(idx).filter(|d| d.family == sd.family).count();
+    let inputs = stress_inputs(sd, fam_idx, size, size.min(2048));
+    let Some((name, input)) = inputs.into_iter().nth(shape) else { return 3 };
+    let s: &'static dyn Subject = subjects[idx];
+    let h = std::thread::Builder::new()
+        .stack_size(stack)
+        .spawn(move || {
+            let o = s.lex(0, &input, Mode { count_only: true, ..Mode::default() });
+            (o.n_ok, o.n_err, o.ended)
+        })
+        .expect("spawn");
+    match h.join() {
+        Ok((ok, err, ended)) => {
+            println!("STACKOK {name} ok={ok} err={err} ended={ended}");
+            0
+        }
+        Err(_) => 4,
+    }
+}
+
+/// C06 stack clause, parent: sizes 10^3, 10^5, 4*10^6 per (definition, shape) in child processes with
+/// a fixed thread stack; death at a larger size with success at the smallest size = violation.
+fn stack_parent(set: &SubjectSet, args: &Args, cfg: &BuildCfg) -> i32 {
+    let mut run = Run::new(
+        "C06",
+        &args.tier,
+        args.seed,
+        "stack clause: state-machine build, child process per (stress definition, input shape, size in {10^3, 10^5, 4*10^6}); the lexer runs on a worker thread with a fixed 256 KiB stack over consecutive skips (pattern skip, callback Skip, Filter::Skip, skip-pattern callback), one giant token (self-loop, 2-cycle), many short tokens, adversarial repetitions; oracle: the child survives every size (death by signal at a larger size after success at 10^3 = stack use grows with input length / token length / number of consecutive skips); non-trivial = runs with >= 10^5 bytes",
+    );
+    run.assumptions = vec![format!("build configuration {}", cfg.name()), "a 256 KiB thread stack is enough for any input-independent frame use (the 10^3 run must succeed, otherwise the limit is doubled once and recorded)".into()];
+    let exe = std::env::current_exe().unwrap();
+    let sizes: &[usize] = if args.thorough() { &[1_000, 100_000, 4_000_000, 16_000_000] } else { &[1_000, 100_000, 4_000_000] };
+    let mut code = 0;
+    'outer: for (idx, sd) in set.defs.iter().enumerate() {
+        if !sd.family.starts_with("stress") {
+            continue;
+        }
+        let fam_idx = set.defs.iter().take(idx).filter(|d| d.family == sd.family).count();
+        let nshapes = stress_inputs(sd, fam_idx, 64, 64).len();
+        for shape in 0..nshapes {
+            let mut stack = 256 * 1024;
+            let mut base_ok = false;
+            for (k, &size) in sizes.iter().enumerate() {
+                let run_child = |stack: usize| {
+                    std::process::Command::new(&exe)
+                        .args(["STACKCHILD", "--def", &idx.to_string(), "--shape", &shape.to_string(), "--size", &size.to_string(), "--stack", &stack.to_string()])
+                        .output()
+                        .expect("child")
+                };
+                let mut out = run_child(stack);
+                if k == 0 && !out.status.success() {
+                    stack *= 2;
+                    run.count("stack_limit_doubled", 1);
+                    out = run_child(stack);
+                }
+                run.eval(1);
+                let text = String::from_utf8_lossy(&out.stdout).to_string();
+                if out.status.success() {
+                    if k == 0 {
+                        base_ok = true;
+                    }
+                    if size >= 100_000 {
+                        run.nontrivial(fnv(format!("{idx}-{shape}-{size}").as_bytes()));
+                    }
+                    run.sample(|| json!({"subject": idx, "shape": shape, "size": size, "stack": stack, "result": text.trim()}));
+                } else if base_ok {
+                    let name = stress_inputs(sd, fam_idx, 64, 64)[shape].0.clone();
+                    run.violations = 1;
+                    report_violation(
+                        "C06",
+                        &args.replay_dir,
+                        &json!({"property": "C06", "tier": "X", "config": cfg.name(), "stack_case": {"def": idx, "shape": shape, "size": size, "stack": stack}, "def": sd.def, "family": sd.family, "has_value": sd.has_value,
+                                "findings": [{"property": "C06", "what": format!("state-machine lexer died ({:?}) on '{name}' with {size} bytes on a {stack}-byte stack after succeeding with 1000 bytes", out.status)}]}),
+                    );
+                    code = 1;
+                    break 'outer;
+                } else {
+                    eprintln!("stack check: base size fails for subject {idx} shape {shape} even with a doubled stack; inconclusive");
+                    run.count("inconclusive_shapes", 1);
+                    break;
+                }
+            }
+        }
+    }
+    run.write_evidence(&args.evidence);
+    code
 }
